@@ -70,7 +70,7 @@ impl GrammarSys {
             timeout,
             timeout_us: timeout.saturating_mul(1000),
             cap: cap_for(timeout, 1),
-            pauses: if WRAP16.load(std::sync::atomic::Ordering::Relaxed) { vec![(1 << 16) - 2, 1 << 20, 1 << 32] } else { vec![1 << 20, 1 << 32] },
+            pauses: if WRAP16.load(std::sync::atomic::Ordering::Relaxed) { vec![1000, (1 << 16) - 2, (1 << 20) + 100, 1 << 32] } else { vec![1000, (1 << 20) + 100, 1 << 32] },
             values: values.to_vec(),
             others: noncontrib_small::<PollingParameterNumberMessageScanner>(ch),
         }
